@@ -390,6 +390,36 @@ func main() {
 				break
 			}
 			stats["timeout_checks"]++
+			// ---- a wake-up that finds nothing does not restart the timeout
+			{
+				tms := 160 + r.Intn(80)
+				ts := fmt.Sprintf("%.3f", float64(tms)/1000)
+				ch := async(a, mk(tmpl, "tk", ts)...)
+				if !waitBlocked(a, time.Second) {
+					fail("timeout-after-wake", round, steps, "client never became blocked")
+					break
+				}
+				time.Sleep(time.Duration(tms*6/10) * time.Millisecond)
+				do(p, "MULTI")
+				do(p, "RPUSH", "tk", "x")
+				do(p, "LPOP", "tk")
+				do(p, "EXEC")
+				res, ok := get(ch, time.Duration(tms)*time.Millisecond+3*time.Second)
+				st2 := []string{"A: " + strings.Join(mk(tmpl, "tk", ts), " "), fmt.Sprintf("P (after %d ms): MULTI; RPUSH tk x; LPOP tk; EXEC", tms*6/10)}
+				if !ok {
+					fail("timeout-after-wake", round, st2, "the blocked command never completed")
+					break
+				}
+				if !(res.reply == "$-1\r\n" || res.reply == "*-1\r\n") {
+					fail("timeout-after-wake", round, st2, fmt.Sprintf("timed-out command answered %q", res.reply))
+					break
+				}
+				if res.took < time.Duration(tms)*time.Millisecond || res.took > time.Duration(tms)*time.Millisecond+time.Duration(tms*4/10)*time.Millisecond {
+					fail("timeout-after-wake", round, st2, fmt.Sprintf("completed after %v; its timeout is %d ms, counted from when the command was issued", res.took, tms))
+					break
+				}
+				stats["timeout_after_wake_checks"]++
+			}
 			// reusable
 			if do(a, "PING") != "+PONG\r\n" {
 				fail("reuse", round, steps, "connection does not answer PING after a timed-out block")
